@@ -16,7 +16,7 @@ RULE = ("one set of reference parameters (unit quaternion / angle, translation) 
         "holding 1..5 values. Oracle: NumPy R p + t; (XY)p = X(Yp); X^-1(Xp) = p; column j of a d x N result = single call on "
         "column j; M-valued pose x one point = one column per value. Non-trivial: N >= 2, or N = d, or multi-valued pose, or "
         "|p| / |t| ratio > 1e3, or a non-list container.")
-RULE = RULE + probes.RULE_TEXT + (probes.AUG_TEXT if PROPERTY_ID in probes.AUG_PROPS else "") + probes.VARIANT_TEXT + probes.OWN_TEXT
+RULE = RULE + probes.RULE_TEXT + (probes.AUG_TEXT if PROPERTY_ID in probes.AUG_PROPS else "") + probes.VARIANT_TEXT + probes.OWN_TEXT + probes.EXTRA_RULES.get(PROPERTY_ID, "")
 ASSUMPTIONS = ["tolerance 1e-9*max(1,|t|,|p|)", "single-vector results are compared after ravel(): the statement fixes values, not (d,1) vs (d,)",
                "column-by-column equality of a d x N call with N single calls is judged to 1e-12 relative (BLAS may sum in a different order)",
                "multi-valued pose x (d,N) matrix is outside the statement and not called"]
